@@ -260,6 +260,10 @@ type Conform struct {
 	CompressedIdx []int // index into Messages
 
 	Violations []string
+	// AfterCloseVios lists data frames and Close frames seen after the first
+	// Close frame (RFC 6455 5.5.1); kept apart from Violations because they are
+	// the subject of a different property.
+	AfterCloseVios []string
 	// FrameLog is a compact description of each frame in order ("T", "t" = text
 	// fin/non-fin, "B"/"b", "C"/"c" continuation, "P" ping, "O" pong, "X" close).
 	FrameLog []byte
@@ -319,11 +323,11 @@ func (c *Conform) frame(f Frame) {
 	}
 	if c.CloseSeen {
 		c.AfterClose = append(c.AfterClose, l)
-		if f.IsData() {
-			c.vio("frame %d: data frame %s after Close frame", idx, f)
+		if f.IsData() && len(c.AfterCloseVios) < 20 {
+			c.AfterCloseVios = append(c.AfterCloseVios, fmt.Sprintf("frame %d: data frame %s after the Close frame", idx, f))
 		}
-		if f.Op == OpClose {
-			c.vio("frame %d: second Close frame", idx)
+		if f.Op == OpClose && len(c.AfterCloseVios) < 20 {
+			c.AfterCloseVios = append(c.AfterCloseVios, fmt.Sprintf("frame %d: second Close frame (payload %x)", idx, f.Payload))
 		}
 	}
 	if f.Masked != c.FromClient {
